@@ -505,10 +505,10 @@ func init() {
 		},
 		Kinds: map[string]core.RunFunc{
 			"dropverdict": c08DropVerdict,
-			"runverdict": c08RunVerdict,
-			"grid":       c08Grid,
-			"seeded":     c08Seeded,
-			"cli":        c08CLI,
+			"runverdict":  c08RunVerdict,
+			"grid":        c08Grid,
+			"seeded":      c08Seeded,
+			"cli":         c08CLI,
 		},
 		Floors: map[string]int64{"evaluations": 50000, "decided_by_tolerance": 10000, "cli_runs": 10},
 	})
